@@ -59,6 +59,9 @@ func c15Run(cfg c15Cfg) (o c15Obs) {
 		defer os.RemoveAll(files)
 		v1 := world.SimpleCRL(p.CA, 1, 801).DER()
 		v2 := world.SimpleCRL(p.CA, 2, 801, 802).DER()
+		v2badSpec := world.SimpleCRL(p.CA, 3, 801, 802)
+		v2badSpec.BadSig = true
+		v2bad := v2badSpec.DER()
 		publishedAt := make([]time.Time, cfg.N) // when v2 became obtainable (script turned ok) per instance
 		attemptsAfterPublish := make([]int, cfg.N)
 		published := false
@@ -70,8 +73,15 @@ func c15Run(cfg c15Cfg) (o c15Obs) {
 				}
 				k := attemptsAfterPublish[i]
 				attemptsAfterPublish[i]++
-				if k < len(cfg.Script) && cfg.Script[k] == 'f' {
-					return 0, nil, world.ErrRefused
+				if k < len(cfg.Script) {
+					switch cfg.Script[k] {
+					case 'f':
+						return 0, nil, world.ErrRefused
+					case 'b': // a well-formed successor whose signature does not verify
+						return 200, v2bad, nil
+					case 'g':
+						return 200, []byte("<html>maintenance</html>"), nil
+					}
 				}
 				if publishedAt[i].IsZero() {
 					publishedAt[i] = vsched.Now()
@@ -204,9 +214,9 @@ func c15Configs(tier string) []c15Cfg {
 	I := 10 * time.Minute
 	phases := []time.Duration{0, time.Second, I / 4, I/2 - time.Second, I/2 + time.Second}
 	sigs := []config.SignatureValidationMode{config.SignatureValidationModeVerify, config.SignatureValidationModeVerifyLog, config.SignatureValidationModeNone}
-	scripts := []string{"", "f", "ff", "fo", "fff"}
+	scripts := []string{"", "f", "ff", "fo", "fff", "b", "bb", "g", "bg", "fb"}
 	if tier != "thorough" {
-		scripts = []string{"", "f", "ff"}
+		scripts = []string{"", "f", "ff", "b", "g"}
 	}
 	// single instance: all sources x sig x fetch x script x duration
 	for _, src := range []string{"crl_files", "crl_urls", "cdp"} {
